@@ -127,8 +127,9 @@ def is_memory_place(e):
 
 class FxBuilder(Builder):
     def __init__(self, facts, inline=None, max_depth=8, crates=("owlchess", "owlchess_base"), max_blocks=120,
-                 stop=(), ai_mode=False, invariants=None, agg_watch=()):
+                 stop=(), ai_mode=False, invariants=None, agg_watch=(), array_stores=False):
         super().__init__(facts)
+        self.array_stores = array_stores
         # ai_mode: keep value-changing integer casts, emit ("mk", type, value, site) where a newtype with a
         # range invariant is constructed, and ("loophead", block, {local: (pre, var)}, site) / backedge finals
         self.ai_mode = ai_mode
@@ -148,6 +149,7 @@ class FxBuilder(Builder):
         self.etypes = {}
         self.spliced = set()      # closures whose body was spliced into a modelled combinator (decided in that context)
         self._serial = 0
+        self._callseq = 0
         self._tbl_cache = {}
         self._model_nodes = []
 
@@ -581,6 +583,9 @@ class FxBuilder(Builder):
                 if nm and nodes is not None:
                     nodes.append(("lstore", fr.fn.id, r[2], "%s.%s" % (nm, pe[2]), val, site))
             else:
+                if self.array_stores and nodes is not None and pe[0] in ("index", "tbl") and pe[1][0] == "local":
+                    # element store into a local array: an event for the automaton reading (the array value itself is havocked)
+                    nodes.append(("store", pe, val, site, 0))
                 fr.state[r[2]] = self._havoc(r[2], fr.body.names.get(r[2], "_%d" % r[2]))
             return
         if is_memory_place(pe):
@@ -825,6 +830,10 @@ class FxBuilder(Builder):
                 states = []
                 state_labels = []
                 sw_id = (fn.id, b, fr.id, len(self.writes))
+                unr = tuple(sorted((hb, st[0]) for hb, st in fr.unroll.items() if st[0] > 0))
+                if unr:
+                    # the same block in another iteration of an unrolled array loop is another switch
+                    sw_id = sw_id + (("unroll", unr),)
                 saved_branch = self.branch
                 for lab, tb in order:
                     fr.state = dict(base_state)
@@ -1212,7 +1221,13 @@ class FxBuilder(Builder):
         if not spliced:
             ret = self.simp(N(norm_call(name, base, args)))
             mutargs = [i for i, a in enumerate(t["args"]) if self._is_mut_ref(body, a)]
-            nodes.append(("call", name, base, args, site, {"mutargs": mutargs, "hidden": f.get("hidden", []), "ret": ret}))
+            if mutargs and ret[0] == "call" and len(ret) == 3 and not (base and base.split("::")[-1] in NO_WRITE_EXT):
+                # a call that may change what its `&mut` argument points to: two such calls with the same argument
+                # expressions are different values (`iter.next()` twice)
+                self._callseq += 1
+                ret = ret + (("seq", self._callseq),)
+            nodes.append(("call", name, base, args, site, {"mutargs": mutargs, "hidden": f.get("hidden", []), "ret": ret,
+                                                              "destl": ("local", fr.id, t["dest"]["l"]) if not t["dest"]["p"] else None}))
             if mutargs and not (base and base.split("::")[-1] in NO_WRITE_EXT):
                 for i in mutargs:
                     a = args[i]
@@ -1575,7 +1590,7 @@ def simplify_variants(e):
                 return ("const", 1 if v == "Some" else 0, "bool")
             if last == "is_none":
                 return ("const", 1 if v == "None" else 0, "bool")
-        return ("call", name, args)
+        return ("call", name, args) + tuple(e[3:])
     if k == "discr":
         inner = simplify_variants(e[1])
         if inner[0] == "agg" and inner[1] in (_OPT, _RES, _CF) and inner[2] in _VARIANT_DISCR:
